@@ -40,6 +40,10 @@
                                (busyPop th.retB fr = true ∨ lookP p.ring.tail th.retB th.stack = true)) ∨
                              (∀ u thu, s.threads u = some thu → commitP p.ring.tail thu.retB thu.stack = false)
     no_stuck_producer_side : (above), no hypothesis left.
+    no_stuck_sleeper_on_deq : cfg.repaired = true → Reach cfg s → s.pool = some p → (∃ t, asleepOnDeq s t) →
+                             (∃ w, liveWorker s w) → ∃ t, enabled s t = true      (free slot or full queue alike)
+    free_slot_uncovered_at_start : the statement of `free_slot_is_covered` without its last disjunct is false in the
+                             reachable state right after `mInit` (eager pool, capacity 1).
 -/
 import Nstd.Future.LiveProducer3
 set_option linter.unusedSimpArgs false
@@ -199,4 +203,57 @@ theorem no_stuck_producer_side (hrep : cfg.repaired = true) (hr : Reach cfg s) (
     rw [hst] at hwit
     exact witP_not_dead hwit (hshape v th fr rest hth hst)
 
+/-- corollary (both sides together): with a live worker, a thread sleeping on the dequeued signal of an existing pool is
+    never part of a dead state -- if the queue has a free slot by the producer side, if it is full (hence not empty)
+    by the worker side -/
+theorem no_stuck_sleeper_on_deq {p : Pool} (hrep : cfg.repaired = true) (hr : Reach cfg s) (hp : s.pool = some p)
+    (hsl : ∃ t, asleepOnDeq s t) (hw : ∃ w, liveWorker s w) : ∃ t, enabled s t = true := by
+  by_cases hfree : p.ring.tail < p.ring.head + p.ring.cap
+  · exact no_stuck_producer_side hrep hr ⟨p, hp, hfree⟩ hsl hw
+  · have hcap := full_cap hr hp
+    have hpos := capOf_pos cfg
+    exact no_stuck_worker_side hrep hr ⟨p, hp, by omega⟩ hw
+
+/-! ### why (J2) needs the disjunct "no thread is a committed pusher" -/
+
+/-- the configuration of the witness below: eager pool of capacity 1, no clients -/
+def cfgStart : Config :=
+  { q := 1, minT := 0, maxT := 3, lazy := false, tick := 0, spurious := 0, repaired := true, scripts := [] }
+
+/-- the state right after the main thread has created the pool -/
+def sStart : State := (stepFrame (State.init cfgStart) 0 { stack := [.mInit] } .mInit).1
+
+theorem sStart_reach : Reach cfgStart sStart := Reach.step (o := []) 0 Reach.init rfl
+
+theorem sStart_threads (t : Tid) :
+    sStart.threads t = if t = 0 then some { stack := [.mSpawn 0] } else none := by
+  by_cases ht : t = 0
+  · subst ht; rfl
+  · simp only [ht, if_false]
+    show upd (State.init cfgStart).threads 0 _ t = none
+    rw [upd_ne _ _ ht]
+    simp [State.init, ht]
+
+/-- the coverage statement without the disjunct "no thread is a committed pusher" is false: right after the pool has
+    been created a slot is free, `_dequeuedSignal` is unset, the queue is empty and no thread is a busy popper or a
+    looking pusher -/
+theorem free_slot_uncovered_at_start :
+    ∃ (cfg : Config) (s : State) (p : Pool), cfg.repaired = true ∧ Reach cfg s ∧ s.pool = some p ∧
+      p.ring.tail < p.ring.head + p.ring.cap ∧
+      ¬ (p.deq = 1 ∨ (s.sigs 1).signaled = true ∨ p.ring.head < p.ring.tail ∨
+          ∃ t th fr rest, s.threads t = some th ∧ th.finished = false ∧ th.stack = fr :: rest ∧
+            (busyPop th.retB fr = true ∨ lookP p.ring.tail th.retB th.stack = true)) := by
+  refine ⟨cfgStart, sStart, mkPool 1 0 3, rfl, sStart_reach, rfl, by decide, ?_⟩
+  rintro (h | h | h | ⟨t, th, fr, rest, hth, _, hst, hw⟩)
+  · cases h
+  · cases h
+  · exact absurd h (by decide)
+  · rw [sStart_threads] at hth
+    split at hth
+    · injection hth with hth
+      subst hth
+      simp only [List.cons.injEq] at hst
+      obtain ⟨rfl, rfl⟩ := hst
+      simp [busyPop, lookP_cons, lookP_nil, transpP, lookTopP] at hw
+    · cases hth
 end Nstd.Future
